@@ -53,6 +53,13 @@ func (t *c11rt) RoundTrip(r *http.Request) (*http.Response, error) {
 			return nil, errors.New("injected transport error")
 		case "status":
 			return &http.Response{StatusCode: 500, Body: io.NopCloser(strings.NewReader("boom")), Header: http.Header{}}, nil
+		case "status-validbody":
+			out := make([]map[string]interface{}, len(reqs))
+			for i, q := range reqs {
+				out[i] = map[string]interface{}{"data": map[string]interface{}{"echo": q.Query}}
+			}
+			b, _ := json.Marshal(out)
+			return &http.Response{StatusCode: 502, Body: io.NopCloser(bytes.NewReader(b)), Header: http.Header{}}, nil
 		case "badjson":
 			return &http.Response{StatusCode: 200, Body: io.NopCloser(strings.NewReader("{not json")), Header: http.Header{}}, nil
 		}
@@ -191,7 +198,7 @@ func init() {
 					}
 					kinds := []string{"transport"}
 					if n <= 4 || tier == "thorough" {
-						kinds = []string{"transport", "status", "badjson"}
+						kinds = []string{"transport", "status", "badjson", "status-validbody"}
 					}
 					for _, k := range kinds {
 						for c := 0; c < chunks; c++ {
